@@ -286,7 +286,7 @@ std::string
 gen_c15()
 {
 	std::ostringstream t;
-	int mode = *gen::weightedElement<int>({{4, 0}, {1, 1}, {1, 2}});
+	int mode = *pbt::welem<int>({{4, 0}, {1, 1}, {1, 2}});
 	t << "cfg " << *pbt::range<int>(1, 1000000) << " " << mode << " " << *gen::element(10, 30) << " " << *pbt::range<int>(1, 3) << " 400 0\n";
 	t << "world " << *pbt::range<int>(0, kNProtos - 1) << "\n";
 	if (*gen::weightedElement<int>({{1, 0}, {3, 1}}))
